@@ -12,10 +12,11 @@ class HarnessError(Exception):
 
 class Ob:
     """obligation: expr must be zero. scale: values whose magnitudes bound the size of the terms"""
-    __slots__ = ('name', 'expr', 'scale', 'rounds', 'conj', 'mults')
+    __slots__ = ('name', 'expr', 'scale', 'rounds', 'conj', 'mults', 'rel')
 
-    def __init__(s, name, expr, scale=(), rounds=None, conj=None, mults=()):
+    def __init__(s, name, expr, scale=(), rounds=None, conj=None, mults=(), rel='eq'):
         s.name = name; s.expr = expr; s.scale = scale; s.rounds = rounds; s.conj = conj; s.mults = mults
+        s.rel = rel        # 'eq': expr == 0 ; 'ge': expr >= 0
 
 
 KINDS = {
@@ -56,6 +57,9 @@ class SymV:
     def assume_pos(s, expr):
         s.ctx.facts.append((SC.lift(expr).p, True))
 
+    def assume_pos_nonstrict(s, expr):
+        s.ctx.facts.append((SC.lift(expr).p, False))
+
     sym = True
 
 
@@ -80,6 +84,7 @@ class ConV:
 
     def assume_eq(s, expr): pass
     def assume_pos(s, expr): pass
+    def assume_pos_nonstrict(s, expr): pass
 
 
 def unknown_mults(V, degree2=True, prefix=('x',)):
@@ -246,13 +251,19 @@ def _z3_real_model(ctx, declared, rng, boxed=True):
         if a not in zv: zv[a] = z3.Real('a%d' % a)
         return zv[a]
 
+    grid = ctx.extra.get('grid', {})
+    aux = set()
+
     def tr(p):
         tot = 0
         for m, c in p.t.items():
             if c.im != 0: return None
             t = z3.RealVal(c.re)
             for a, e in m:
-                if a not in idx: return None
+                if a not in idx:
+                    # unknowns of contract stubs on a decimal grid (round / floor results) are existential variables
+                    if a in grid: aux.add(a)
+                    else: return None
                 x = var(a)
                 for _ in range(abs(e)):
                     t = t * x if e > 0 else t / x
@@ -273,7 +284,10 @@ def _z3_real_model(ctx, declared, rng, boxed=True):
             e = tr(p)
             if e is not None: involved |= p.atoms_used(); cons.append(e != 0)
     if not involved: return {}
-    sol = z3.Solver(); sol.set('timeout', 3000)
+    sol = z3.Solver(); sol.set('timeout', 5000)
+    involved = {a for a in involved if a in idx}
+    for a in aux:
+        sol.add(z3.IsInt(var(a) * z3.RealVal(10 ** grid[a] if grid[a] >= 0 else F(1, 10 ** (-grid[a])))))
     for a in involved:
         x = var(a)
         if kinds[idx[a]] == 'pos': sol.add(x > 0)
@@ -342,6 +356,11 @@ def concrete_residuals(obs, tol=1e-6):
         for t in ob.scale:
             try: sc += abs(complex(t))
             except Exception: pass
+        if getattr(ob, 'rel', 'eq') == 'ge':
+            # inequality: only a negative value counts
+            try: val = complex(v).real
+            except TypeError: val = float(np.min(np.real(np.asarray(v, dtype=complex))))
+            mag = max(0.0, -val) if val == val else float('nan')
         rows.append((ob.name, mag, sc))
         if sc == sc and sc != float('inf'): gmax = max(gmax, sc)
     bad = []
@@ -380,6 +399,8 @@ def run_symbolic(execute, cfg, mods, rounds=0, conj=False, symbolic_labels=False
             e = SC.lift(ob.expr)
             if e is NotImplemented:
                 res.append((ob.name, False)); continue
+            if ob.rel == 'ge':
+                res.append((ob.name, ctx.entails_nonneg(e.p))); continue
             r = rounds if ob.rounds is None else ob.rounds
             cj = conj if ob.conj is None else ob.conj
             ok = ctx.entails_zero(e.p, rounds=0)
